@@ -189,6 +189,7 @@ def reify_attributes(g: Graph) -> Graph:
            :mod (_ / 7))
     """
     variables = g.variables()
+    used = set(variables)  # new variables must not make a constant a reference
     new_epidata = dict(g.epidata)
     new_triples: List[BasicTriple] = []
     i = 2
@@ -197,10 +198,10 @@ def reify_attributes(g: Graph) -> Graph:
         if role != CONCEPT_ROLE and target not in variables:
             # get unique var for new node
             var = '_'
-            while var in variables:
+            while var in used:
                 var = f'_{i}'
                 i += 1
-            variables.add(var)
+            used.add(var)
             role_triple = (source, role, var)
             node_triple = (var, CONCEPT_ROLE, target)
             new_triples.extend((role_triple, node_triple))
